@@ -4,9 +4,16 @@ composed with it, evaluated on the data and on the data with the incomplete (exp
 deleted by the user.  Carrier `Rat` (exact).
     c10 est=<check|std|iptw|gform> dc=<0|1> a= l= y= [w=] <estimator arguments>
 `a`, `l`, `y` are per-row lists in which `_` marks a missing value; fitted values are indexed by row position.
+
+Row retention goes through the REGENERATED code (`Gen/InputData.lean`, translated from /repo on every run):
+    c10 est=check cls=<Class> ...   the flags of `<Class>.__init__`'s call are looked up in the generated table
+                                    `Gen.input_sites`, and `Gen.check_input_data` with those flags produces kept / obs /
+                                    miss (the hand-written `checkInput` is reported next to it: `model=1` iff they agree)
+    c10gen dc= dm= bo= e= l= y=     `Gen.check_input_data` on a frame with a numeric exposure column `e`
 -/
 import Driver.Ops.Std
 import ZepidVerif.Model.Missing
+import ZepidVerif.Gen.InputData
 namespace ZVD
 open ZV ZV.Std ZV.Miss
 
@@ -23,10 +30,38 @@ def parseRaw (a : Args) : Except String (List (Raw Rat)) := do
     | _, _, _, _ => []
   pure (go 0 ex cv y w)
 
+/-- the generated `check_input_data`, printed: `raise=1`, or kept labels / indicator column / miss_flag / continuous -/
+def showGenCheck (r : Except ZV.Err (List (DRow Rat) × List Nat × Bool × Bool)) : String :=
+  match r with
+  | .error _ => "raise=1"
+  | .ok (D, ind, flag, cont) =>
+    s!"raise=0 kept={showList toString (D.map (·.i))} obs={showList toString ind} miss={showBool flag} cont={showBool cont} n={D.length}"
+
+def opC10gen (a : Args) : Except String String := do
+  let dc ← need a "dc" parseBool
+  let dm ← need a "dm" parseBool
+  let bo ← need a "bo" parseBool
+  let ex ← need a "e" (parseOptList parseRat)
+  let cv ← need a "l" (parseOptList parseNat)
+  let y ← need a "y" (parseOptList parseRat)
+  if ex.length ≠ cv.length ∨ ex.length ≠ y.length then throw "bad-arg:lengths"
+  let rec go (i : Nat) : List (Option Rat) → List (Option Nat) → List (Option Rat) → List (DRow Rat)
+    | e :: es, c :: cs, v :: vs => ⟨i, e, c, v, 1⟩ :: go (i + 1) es cs vs
+    | _, _, _ => []
+  pure ("ok " ++ showGenCheck (ZV.Gen.check_input_data dc dm bo (go 0 ex cv y)))
+
 def opC10 (a : Args) : Except String String := do
   let rows ← parseRaw a
-  let dc ← need a "dc" parseBool
   let est ← need a "est" some
+  -- the class's flags, from the generated call-site table when a class is named
+  let flags : Option (Bool × Bool × Bool) ← match a.get? "cls" with
+    | some c => match ZV.Gen.input_sites.lookup c with
+      | some fl => pure (some fl)
+      | none => throw ("no-call-site:" ++ c)
+    | none => pure none
+  let dc ← match flags with
+    | some fl => pure fl.1
+    | none => need a "dc" parseBool
   let D := checkInput dc rows                         -- what the estimator sees on the user's data
   let E := checkInput dc (deleteIncomplete rows)      -- ... after the user deleted the incomplete rows
   let pair := fun (n : String) (f : List (Row Rat) → Rat) => s!"{n}={showRat (f D)} del_{n}={showRat (f E)}"
@@ -34,6 +69,20 @@ def opC10 (a : Args) : Except String String := do
   match est with
   | "check" =>
     let cc := checkInput true (completeCases rows)
+    match flags with
+    | some fl =>
+      -- row retention by the regenerated code, on the data and after the user's deletion
+      let g := ZV.Gen.check_input_data fl.1 fl.2.1 fl.2.2 (rows.map Raw.toD)
+      let gE := ZV.Gen.check_input_data fl.1 fl.2.1 fl.2.2 ((deleteIncomplete rows).map Raw.toD)
+      let fmt := fun (r : Except ZV.Err (List (DRow Rat) × List Nat × Bool × Bool)) =>
+        match r with
+        | .error _ => ([], false)
+        | .ok (Dg, ind, flag, _) => (formatD Dg ind, flag)
+      let (Dg, fg) := fmt g
+      let (Eg, _) := fmt gE
+      let agree := (Dg.map (·.i)) == (D.map (·.i)) && (Dg.map (·.obs)) == (D.map (·.obs)) && fg == missFlag dc rows
+      pure s!"ok {showGenCheck g} fitrows={(outcomeFitRows Dg).length} same={showBool ((Dg.map (·.i)) == (Eg.map (·.i)))} cc={showList toString (cc.map (·.i))} dc={showBool fl.1} bo={showBool fl.2.2} model={showBool agree}"
+    | none =>
     pure s!"ok kept={showList toString (D.map (·.i))} obs={showList showBool (D.map (·.obs))} miss={showBool (missFlag dc rows)} n={D.length} fitrows={(outcomeFitRows D).length} same={showBool ((D.map (·.i)) == (E.map (·.i)))} cc={showList toString (cc.map (·.i))}"
   | "std" =>
     let S := strataOf D
@@ -62,6 +111,6 @@ def opC10 (a : Args) : Except String String := do
     pure s!"ok {pair "g1" f1} {pair "g0" f0} same={same [f1, f0]}"
   | _ => throw "bad-arg:est"
 
-def opsC10 : OpTable := [("c10", opC10)]
+def opsC10 : OpTable := [("c10", opC10), ("c10gen", opC10gen)]
 
 end ZVD
